@@ -29,6 +29,9 @@ pub struct Obs {
     pub timed_out: bool,
     /// Injected output-write faults that fired in this run (from the interposer's own log).
     pub out_faults: u64,
+    /// Files that a crashed earlier run left in the output directory and that this run did not touch (same bytes
+    /// before and after): not output of this run, unless the other side produced a file of that name.
+    pub leftover: Vec<String>,
 }
 
 pub static OUT_FAULT_RUNS: AtomicUsize = AtomicUsize::new(0);
@@ -97,12 +100,14 @@ pub fn observe(bins: &Binaries, cmd: &Cmd, in_dir: &Path, out_dir: &Path, env: &
         (None, true, Some((_, content))) => Some(content.clone().into_bytes()),
         _ => stdin_data,
     };
+    let mut before: Vec<(String, Vec<u8>)> = vec![];
     if let (Some(us), true) = (env.crash_first_us, cmd.uses_out) {
         // crash-restart: an earlier run of the very same command died at an arbitrary point
         if let Ok(true) = e2::crash_anthem(bins, &args, in_dir, env, us) {
             CRASHES_MID_RUN.fetch_add(1, Ordering::Relaxed);
         }
         CRASHES.fetch_add(1, Ordering::Relaxed);
+        before = crate::exec::read_dir_files(out_dir);
     }
     let mut extra = vec![];
     let iolog = PathBuf::from(format!("{}.iolog", out_dir.display()));
@@ -127,7 +132,8 @@ pub fn observe(bins: &Binaries, cmd: &Cmd, in_dir: &Path, out_dir: &Path, env: &
         OUT_FAULTS_FIRED.fetch_add(out_faults as usize, Ordering::Relaxed);
     }
     let files = if cmd.uses_out { crate::exec::read_dir_files(out_dir) } else { vec![] };
-    Obs { code: po.code, signal: po.signal, stdout: scrub(po.stdout, out_dir), stderr: scrub(po.stderr, out_dir), files, timed_out: po.timed_out, out_faults }
+    let leftover = files.iter().filter(|f| before.contains(f)).map(|f| f.0.clone()).collect();
+    Obs { code: po.code, signal: po.signal, stdout: scrub(po.stdout, out_dir), stderr: scrub(po.stderr, out_dir), files, timed_out: po.timed_out, out_faults, leftover }
 }
 
 #[derive(Clone, Debug, Serialize, Deserialize)]
@@ -156,12 +162,16 @@ pub fn compare(a: &Obs, b: &Obs) -> Option<Diff> {
         let at = 0;
         return Some(Diff { what: "stderr".into(), first_diff: at, excerpt_a: e2::excerpt(&a.stderr, at), excerpt_b: e2::excerpt(&b.stderr, at) });
     }
-    let na: Vec<&String> = a.files.iter().map(|f| &f.0).collect();
-    let nb: Vec<&String> = b.files.iter().map(|f| &f.0).collect();
+    // (a file that a crashed earlier run left behind under a name of its own and that this run never touched is not
+    // output of this run; a temporary file named after the crashed process, say)
+    let fa: Vec<&(String, Vec<u8>)> = a.files.iter().filter(|f| !(a.leftover.contains(&f.0) && !b.files.iter().any(|g| g.0 == f.0))).collect();
+    let fb: Vec<&(String, Vec<u8>)> = b.files.iter().filter(|f| !(b.leftover.contains(&f.0) && !a.files.iter().any(|g| g.0 == f.0))).collect();
+    let na: Vec<&String> = fa.iter().map(|f| &f.0).collect();
+    let nb: Vec<&String> = fb.iter().map(|f| &f.0).collect();
     if na != nb {
         return Some(Diff { what: "set of output files".into(), first_diff: 0, excerpt_a: format!("{na:?}"), excerpt_b: format!("{nb:?}") });
     }
-    for ((n, x), (_, y)) in a.files.iter().zip(b.files.iter()) {
+    for ((n, x), (_, y)) in fa.iter().map(|f| (&f.0, &f.1)).zip(fb.iter().map(|f| (&f.0, &f.1))) {
         if let Some(at) = e2::first_diff(x, y) {
             return Some(Diff { what: format!("file {n}"), first_diff: at, excerpt_a: e2::excerpt(x, at), excerpt_b: e2::excerpt(y, at) });
         }
